@@ -1,145 +1,32 @@
-import GoSquare.Proofs.Compact
-/-! # C14 — incremental APIs are history-independent (compact share splitter half; the builder
-half is decided by the BHIST correspondence stream and oracle, see evidence)
+import GoSquare.Proofs.C14Core
+import GoSquare.Proofs.BuilderHistory
+/-! # C14 — incremental APIs are history-independent
 
-For EVERY interleaving of {WriteTx, Export, Count} on a compact share splitter, the shares finally
-exported are exactly `Spec.compactSeq` of the transactions written — a function of the writes
-alone. This is the property the `fix:` commit for F4 restored (Export used to leave zero padding
-in the middle of the sequence). -/
+`Proofs/C14Core.lean` (namespace `GoSquare.C14`): the shares finally exported by a compact share
+splitter depend only on the transactions written, not on exports or counts performed between
+writes. `Proofs/BuilderHistory.lean`: the square finally exported by a builder depends only on
+the sequence of accepted appends — not on exports, range or index queries, wrapped-PFB lookups or
+refused appends interleaved between them, whatever state a failing export or query leaves behind
+(untouched, exported, or partially exported). -/
 namespace GoSquare.C14
-open GoSquare Spec
+open GoSquare Builder Spec BuilderHistory
 
-inductive Op where
-  | write (tx : Bytes)
-  | exp
-  | count
-  deriving Repr
+/-- **C14 (builder).** For every interleaving `ops` of {append tx, append blob tx (accepted or
+    refused), export, tx range, blob index, blob length, wrapped PFB} from a new builder: the
+    finally exported square (or error) is the one a builder fed only the accepted appends exports. -/
+theorem builder_export_depends_only_on_accepted_appends (err : Builder → BuilderHistory.Op → Builder)
+    (herr : ∀ b op, ErrState b (err b op)) (max thr : Nat) (b0 : Builder) (h0 : Builder.new max thr = .ok b0)
+    (ops : List BuilderHistory.Op) :
+    (BuilderHistory.run err b0 ops).exportSquare.map (·.2) =
+      (BuilderHistory.run err b0 (acceptedOps err b0 ops)).exportSquare.map (·.2) :=
+  export_depends_only_on_accepted err herr max thr b0 h0 ops
 
-/-- the transactions written by a history -/
-def writes : List Op → List Bytes
-  | [] => []
-  | .write t :: ops => t :: writes ops
-  | _ :: ops => writes ops
-
-/-- run one operation on the splitter (errors propagate) -/
-def step (c : CompactSplitter) : Op → Res CompactSplitter
-  | .write t => c.writeTx t
-  | .exp => c.exportShares.map (·.1)
-  | .count => .ok c
-
-def run (c : CompactSplitter) (ops : List Op) : Res CompactSplitter := ops.foldlM step c
-
-/-- the invariant between operations: after dropping the padded copy a pending `Export` left
-    behind, the splitter is in the specified state for the transactions written so far; and while
-    `done` is set its share list *is* the specified sequence -/
-def J (ns : Bytes) (c : CompactSplitter) (units : List Bytes) : Prop :=
-  ∃ x, x.length = 4 ∧ Normal ns x c.reopen units ∧
-    (c.done = true → c.shares = Spec.compactSeq ns units ∧ (unitStream units).length ≠ 0)
-
-theorem reopen_idem (c : CompactSplitter) : c.reopen.reopen = c.reopen := by
-  unfold CompactSplitter.reopen
-  by_cases h : c.done = true <;> simp [h]
-
-theorem writeTx_reopen (c : CompactSplitter) (t : Bytes) : c.writeTx t = c.reopen.writeTx t := by
-  unfold CompactSplitter.writeTx
-  rw [reopen_idem]
-
-theorem unitStream_mono (units : List Bytes) (t : Bytes) :
-    (unitStream units).length ≤ (unitStream (units ++ [t])).length := by
-  rw [unitStream_append]; simp
-
-theorem J_step (ns : Bytes) (hc : CompactNs ns) (c : CompactSplitter) (units : List Bytes) (op : Op)
-    (hJ : J ns c units) (hlt : (unitStream units).length < 4294967296) :
-    ∃ c', step c op = .ok c' ∧ J ns c' (units ++ writes [op]) ∧
-      (op = .exp → c.exportShares.map (·.2) = .ok (Spec.compactSeq ns units)) := by
-  obtain ⟨x, hxl, hN, hdone⟩ := hJ
-  cases op with
-  | write t =>
-    obtain ⟨c', hw, hN', _⟩ := writeTx_spec ns x hc c.reopen units t hN
-    refine ⟨c', by simp only [step]; rw [writeTx_reopen]; exact hw, ⟨x, hxl, ?_, ?_⟩, fun h => by cases h⟩
-    · rw [reopen_of_not_done c' hN'.1.done]; simpa [writes] using hN'
-    · intro hd; rw [hN'.1.done] at hd; cases hd
-  | count =>
-    refine ⟨c, rfl, ?_, fun h => by cases h⟩
-    rw [show writes [Op.count] = [] from rfl, List.append_nil]; exact ⟨x, hxl, hN, hdone⟩
-  | exp =>
-    by_cases hd : c.done = true
-    · -- a second Export: the stored shares are returned
-      obtain ⟨hsh, hne⟩ := hdone hd
-      have hcnt : 1 ≤ (Spec.compactSeq ns units).length := by
-        rw [compactSeq_eq, List.length_map, List.length_range, compactCount]
-        split
-        · omega
-        · split <;> omega
-      have hie : c.isEmpty = false := by
-        have : c.shares.length ≠ 0 := by rw [hsh]; omega
-        simp [CompactSplitter.isEmpty, this]
-      have hex : c.exportShares = .ok (c, c.shares) := by
-        simp [CompactSplitter.exportShares, hie, hd]
-      refine ⟨c, by simp [step, hex, Except.map], ?_, fun _ => ?_⟩
-      · rw [show writes [Op.exp] = [] from rfl, List.append_nil]; exact ⟨x, hxl, hN, hdone⟩
-      · simp [hex, Except.map, hsh]
-    · have hd' : c.done = false := by simpa using hd
-      rw [reopen_of_not_done c hd'] at hN
-      obtain ⟨c', x', hex, hxl', hN', _, h5, h6⟩ := export_spec ns x hc c units hN hxl hlt
-      refine ⟨c', by simp [step, hex, Except.map], ?_, fun _ => by simp [hex, Except.map]⟩
-      simp only [writes, List.append_nil]
-      refine ⟨x', hxl', hN', ?_⟩
-      intro hdc
-      by_cases hz : (unitStream units).length = 0
-      · rw [h6 hz, hd'] at hdc; cases hdc
-      · exact ⟨(h5 hz).2, hz⟩
-
-theorem writes_append (a b : List Op) : writes (a ++ b) = writes a ++ writes b := by
-  induction a with
-  | nil => rfl
-  | cons op a ih => cases op <;> simp [writes, ih]
-
-theorem unitStream_length_mono : ∀ (us vs : List Bytes), (unitStream us).length ≤ (unitStream (us ++ vs)).length := by
-  intro us vs
-  simp [unitStream]
-
-theorem J_run (ns : Bytes) (hc : CompactNs ns) : ∀ (ops : List Op) (c : CompactSplitter) (units : List Bytes),
-    J ns c units → (unitStream (units ++ writes ops)).length < 4294967296 →
-    ∃ c', run c ops = .ok c' ∧ J ns c' (units ++ writes ops)
-  | [], c, units, hJ, _ => ⟨c, rfl, by simpa [writes] using hJ⟩
-  | op :: ops, c, units, hJ, hlt => by
-    have hlt1 : (unitStream units).length < 4294967296 := Nat.lt_of_le_of_lt (unitStream_length_mono units _) hlt
-    obtain ⟨c1, h1, hJ1, _⟩ := J_step ns hc c units op hJ hlt1
-    have hw : units ++ writes (op :: ops) = (units ++ writes [op]) ++ writes ops := by
-      rw [show op :: ops = [op] ++ ops from rfl, writes_append, List.append_assoc]
-    obtain ⟨c2, h2, hJ2⟩ := J_run ns hc ops c1 (units ++ writes [op]) hJ1 (by rw [← hw]; exact hlt)
-    refine ⟨c2, ?_, by rw [hw]; exact hJ2⟩
-    simp only [run, List.foldlM_cons, h1] at h2 ⊢
-    exact h2
-
-/-- **C14 (compact share splitter, every history).** Whatever exports and counts are interleaved
-    with the writes, the shares finally exported are the specified sequence of the transactions
-    written — the same as a fresh splitter fed only the writes. -/
-theorem splitter_history_independent (ns : Bytes) (hc : CompactNs ns) (ops : List Op)
-    (hlt : (unitStream (writes ops)).length < 4294967296) :
-    ∃ c0 c, CompactSplitter.new ns 0 = .ok c0 ∧ run c0 ops = .ok c ∧
-      c.exportShares.map (·.2) = .ok (Spec.compactSeq ns (writes ops)) := by
-  obtain ⟨c0, hnew, hN0, _⟩ := new_spec ns hc
-  have hJ0 : J ns c0 [] := ⟨zeros 4, by simp, by rw [reopen_of_not_done c0 hN0.1.done]; exact hN0,
-    fun hd => by rw [hN0.1.done] at hd; cases hd⟩
-  obtain ⟨c, hrun, hJ⟩ := J_run ns hc ops c0 [] hJ0 (by simpa using hlt)
-  simp only [List.nil_append] at hJ
-  obtain ⟨_, _, _, hex⟩ := J_step ns hc c (writes ops) .exp hJ hlt
-  exact ⟨c0, c, hnew, hrun, hex rfl⟩
-
-/-- corollary in the words of the property: two histories with the same writes export the same shares -/
-theorem same_writes_same_export (ns : Bytes) (hc : CompactNs ns) (ops₁ ops₂ : List Op) (hw : writes ops₁ = writes ops₂)
-    (hlt : (unitStream (writes ops₁)).length < 4294967296) :
-    ∃ c0 c₁ c₂, CompactSplitter.new ns 0 = .ok c0 ∧ run c0 ops₁ = .ok c₁ ∧ run c0 ops₂ = .ok c₂ ∧
-      c₁.exportShares.map (·.2) = c₂.exportShares.map (·.2) := by
-  obtain ⟨c0, c1, h0, h1, e1⟩ := splitter_history_independent ns hc ops₁ hlt
-  obtain ⟨c0', c2, h0', h2, e2⟩ := splitter_history_independent ns hc ops₂ (by rw [← hw]; exact hlt)
-  rw [h0] at h0'; cases h0'
-  exact ⟨c0, c1, c2, h0, h1, h2, by rw [e1, e2, hw]⟩
-
-/-- non-vacuity: the history of F4 (write, export, write, export) has the writes of a plain one -/
-example : writes [.write [1], .exp, .write [2], .count, .exp] = [[1], [2]] := rfl
-example : CompactNs txNamespace := ⟨by decide, by decide⟩
+/-- **C14 (builder, two histories).** Histories with the same accepted appends export the same square. -/
+theorem builder_same_accepted_same_export (err1 err2 : Builder → BuilderHistory.Op → Builder)
+    (herr1 : ∀ b op, ErrState b (err1 b op)) (herr2 : ∀ b op, ErrState b (err2 b op))
+    (max thr : Nat) (b0 : Builder) (h0 : Builder.new max thr = .ok b0) (ops1 ops2 : List BuilderHistory.Op)
+    (h : acceptedOps err1 b0 ops1 = acceptedOps err2 b0 ops2) :
+    (BuilderHistory.run err1 b0 ops1).exportSquare.map (·.2) = (BuilderHistory.run err2 b0 ops2).exportSquare.map (·.2) :=
+  same_accepted_same_export err1 err2 herr1 herr2 max thr b0 h0 ops1 ops2 h
 
 end GoSquare.C14
